@@ -4,7 +4,7 @@
    The modelled operations (Model.v, ModelF.v) contain every conversion / wrap modulo 2^w of the C and RecInt types and
    every IEEE rounding explicitly, so "= exact residue" states that no overflow, wrap or rounding is observable. *)
 From Coq Require Import ZArith List.
-From C03 Require Import Model ModelF ModelDK Params ProofsInt ProofsEuclid ProofsIntInv ProofsRU ProofsFM ProofsBI ProofsBarrett ProofsBarrettM ProofsPrecomp ProofsMisc ProofsBF ProofsEX ProofsBN ProofsTop.
+From C03 Require Import Model ModelF ModelDK Params ProofsInt ProofsEuclid ProofsIntInv ProofsRU ProofsFM ProofsBI ProofsBarrett ProofsBarrettM ProofsPrecomp ProofsMisc ProofsBF ProofsEX ProofsBN ProofsRnd ProofsEXM ProofsBIQ ProofsTop ProofsTop2.
 Local Open Scope Z_scope.
 
 (* integral Modular<S,C>: every instantiated (Storage_t, Compute_t) pair, every p in [minCardinality, maxCardinality] *)
@@ -99,3 +99,45 @@ Print Assumptions C03_balanced_neg_refuted.
 (* ModularExtended<float|double>: additive operations exact (mul/reduce: correspondence-tested) *)
 Theorem C03_extended_ring_add_sub_neg_exact_advertised : EX_adv_stmt.   Proof. exact ex_adv. Qed.
 Print Assumptions C03_extended_ring_add_sub_neg_exact_advertised.
+
+(* ---------------------------------------------------------------- phase 3 *)
+(* the rounding layer itself: the model's round-to-nearest-even has relative error 2^-prec, is monotone, and leaves every
+   multiple of 2^k with at most prec significant bits unchanged; the correctly rounded quotient div_dy has the same error *)
+Theorem C03_rounding_relative_error : forall prec z, 0 < prec -> 2 ^ prec * Z.abs (rn prec z - z) <= Z.abs z.
+Proof. exact rn_err. Qed.
+Print Assumptions C03_rounding_relative_error.
+Theorem C03_rounding_exact_on_representable : forall prec k z, 0 < prec -> 0 <= k -> (2 ^ k | z) -> Z.abs z <= 2 ^ (k + prec) -> rn prec z = z.
+Proof. exact rn_exact_mult. Qed.
+Print Assumptions C03_rounding_exact_on_representable.
+(* ModularExtended<float|double>, the `#ifdef FP_FAST_FMA[F]` branch (abh = a*b; abl = fma(a,b,-abh); q = floor(abh*_invp);
+   pql = fma(-q,_p,abh); r = abl + pql; ONE of r >= p -> r - p, r < 0 -> r + p): for every advertised p and canonical operands the
+   result is (a*b) mod p; the quotient estimate is off by at most one in either direction ... *)
+Theorem C03_extended_mul_fma_exact_advertised : EX_mul_adv_stmt.   Proof. exact ex_mul_adv. Qed.
+Print Assumptions C03_extended_mul_fma_exact_advertised.
+(* ... and both correction steps are necessary: canonical operands with a negative raw result, and with a raw result >= p *)
+Theorem C03_extended_mul_fma_needs_negative_correction : exists p a b,
+  2 <= p <= 1125899906842623 /\ canon p a /\ canon p b /\ ex_mul_raw 53 p a b < 0.
+Proof. exact EX_mul_needs_neg_fix. Qed.
+Print Assumptions C03_extended_mul_fma_needs_negative_correction.
+Theorem C03_extended_mul_fma_needs_high_correction : exists p a b,
+  2 <= p <= 1125899906842623 /\ canon p a /\ canon p b /\ p <= ex_mul_raw 53 p a b.
+Proof. exact EX_mul_needs_hi_fix. Qed.
+Print Assumptions C03_extended_mul_fma_needs_high_correction.
+Theorem C03_extended_mul_hypotheses_satisfiable : ex_cfg 53 1125899906842623 /\ 2 <= 1125899906842623 <= 1125899906842623 /\
+  canon 1125899906842623 1125899906842622 /\ ex_mul 53 1125899906842623 1125899906842622 1125899906842622 = 1.
+Proof. exact ex_mul_hyps_sat. Qed.
+Print Assumptions C03_extended_mul_hypotheses_satisfiable.
+(* ModularBalanced<int32_t|int64_t>: the FULL statements (no tolerance hypothesis any more): the double quotient estimate
+   q = (Element)(double(a)*double(b)*_dinvp) (each operation rounded to 53 bits, truncation toward zero) meets q_tolerance for every
+   advertised p and balanced-canonical operands, hence mul / axpy / axmy return the canonical balanced representative *)
+Theorem C03_balanced_int_quotient_estimate_within_tolerance : forall w p, BI_tolerance_stmt w p.   Proof. exact bi_tolerance. Qed.
+Print Assumptions C03_balanced_int_quotient_estimate_within_tolerance.
+Theorem C03_balanced_int_mul_axpy_axmy_exact_advertised : BI_adv_stmt.   Proof. exact bi_adv. Qed.
+Print Assumptions C03_balanced_int_mul_axpy_axmy_exact_advertised.
+Theorem C03_balanced_int_hypotheses_satisfiable : BI_env 64 6074000999 /\ bal_canon 6074000999 3037000499 /\ bal_canon 6074000999 (- 3037000499).
+Proof. exact bi_full_hyps_sat. Qed.
+Print Assumptions C03_balanced_int_hypotheses_satisfiable.
+(* the Veltkamp constants (1 << 27)+1 / (1 << 13)+1 read from modular-extended.h on this run are those of the Dekker-branch model *)
+Theorem C03_extended_split_constants_as_in_source : dk_splitc 53 = 2 ^ split_shift_double + 1 /\ dk_splitc 24 = 2 ^ split_shift_float + 1.
+Proof. exact split_constants_ok. Qed.
+Print Assumptions C03_extended_split_constants_as_in_source.
